@@ -201,7 +201,7 @@ theorem super_of_imposes (p child : Constr) (hw : p.wf = true) (h : Imposes chil
   | union => simpa [isSuperTypeOf] using nonInter hp
 
 theorem super_refl (p : Constr) : isSuperTypeOf p p = true := by
-  have hb : baseIsSuperTypeOf p p = true := by simp [baseIsSuperTypeOf, pyEq_refl]
+  have hb : baseIsSuperTypeOf p p = true := by simp [baseIsSuperTypeOf]
   obtain ⟨k, ops⟩ := p
   cases k <;> simp [isSuperTypeOf, hb]
 
